@@ -134,6 +134,16 @@ partial def step (s : St) (line : String) : St × String :=
       match nat slot >>= (s.trees[·]?) with
       | some m => (s, "[" ++ showList m.toList ++ "]")
       | none => (s, "bad-slot")
+  | ["iterstop", slot, j] =>
+      match nat slot >>= (s.trees[·]?), nat j with
+      | some m, some j =>
+          let seen := m.toList.take (j + 1)
+          (s, (if m.toList.length > j then "cberr" else "ok") ++ " [" ++ showList seen ++ "]")
+      | _, _ => (s, "bad-slot")
+  | ["getnil", slot, k] =>
+      match nat slot >>= (s.trees[·]?), nat k with
+      | some m, some k => (s, if (Tree.lookup s.layer m k).isSome then "true" else "false")
+      | _, _ => (s, "bad-slot")
   | ["stat", slot] =>
       match nat slot >>= (s.trees[·]?) with
       | some m => (s, s!"{m.size} {m.height} {m.dirty}")
